@@ -436,6 +436,21 @@ pub fn c6(a: i64, b: i64, c: i64, d: i64, e: i64, f: i64) {
     }
 }
 
+/// A program with a caller-supplied function text and one statement in main that calls it.
+pub fn generate_custom(name: &str, fn_text: &str, main_stmt: &str) -> Program {
+    let mut s = Src::new();
+    s.marks.push((s.line, "custom.start".to_string()));
+    s.raw(fn_text);
+    s.l("#[unsafe(no_mangle)]", None);
+    s.l("pub extern \"C\" fn main(_argc: i32, _argv: *const *const u8) -> i32 {", None);
+    s.l("    let mut a: u64 = unsafe { core::ptr::read_volatile(&raw const ACC) };", Some("main.init"));
+    s.l(main_stmt, Some("main.custom"));
+    s.l("    emit(a);", Some("main.emit"));
+    s.l("    (a % 200) as i32", Some("main.ret"));
+    s.l("}", None);
+    Program { name: name.to_string(), src_file: format!("{name}.rs"), source: s.text, lines: s.marks, functions: vec!["main".into(), "emit".into()] }
+}
+
 pub fn name_of(body: &[Stmt]) -> String {
     format!("p_{}", body.iter().map(|s| s.tag()).collect::<Vec<_>>().join("_"))
 }
